@@ -108,6 +108,34 @@ InstId find_instruction(const char* s, size_t len, const uint32_t* name_table, c
   return BaseInst::kIdNone;
 }
 
+InstId find_instruction_sorted(const char* s, size_t len, const uint32_t* name_table, const char* string_table, const uint16_t* sorted_id_table, size_t sorted_id_count) noexcept {
+  ASMJIT_ASSERT(s != nullptr);
+  ASMJIT_ASSERT(len > 0u);
+
+  size_t base = 0;
+  char name_data[kBufferSize];
+
+  for (size_t lim = sorted_id_count; lim != 0; lim >>= 1) {
+    size_t index = base + (lim >> 1);
+    size_t inst_id = sorted_id_table[index];
+    size_t name_size = decode_to_buffer(name_data, name_table[inst_id], InstStringifyOptions::kNone, string_table);
+
+    int result = Support::compare_string_views(s, len, name_data, name_size);
+    if (result < 0) {
+      continue;
+    }
+
+    if (result > 0) {
+      base = index + 1;
+      lim--;
+      continue;
+    }
+
+    return InstId(inst_id);
+  }
+
+  return BaseInst::kIdNone;
+}
 
 uint32_t find_alias(const char* s, size_t len, const uint32_t* name_table, const char* string_table, uint32_t alias_name_count) noexcept {
   ASMJIT_ASSERT(s != nullptr);
